@@ -104,9 +104,16 @@ impl RunOutcome {
     /// opreturn records: one per println of the callback (a payload may contain newlines)
     pub fn opreturn_records(&self) -> Vec<String> {
         let s = self.stdout_str();
-        let mut kept: Vec<&str> = Vec::new();
+        // keep every stdout line that is not a log line (or the continuation of a multi-line log
+        // message), each with its own newline: what remains is the concatenation of the callback's
+        // println! outputs, each being `record + "\n"` (a record may itself contain newlines)
+        let mut text = String::new();
         let mut in_log_block = false;
-        for l in s.split('\n') {
+        let mut pieces: Vec<&str> = s.split('\n').collect();
+        if pieces.last() == Some(&"") {
+            pieces.pop();
+        }
+        for l in pieces {
             if is_log_line(l) {
                 in_log_block = true;
                 continue;
@@ -117,9 +124,9 @@ impl RunOutcome {
             if in_log_block {
                 continue;
             }
-            kept.push(l);
+            text.push_str(l);
+            text.push('\n');
         }
-        let text = kept.join("\n");
         let mut recs: Vec<String> = Vec::new();
         let mut rest = text.as_str();
         if !rest.starts_with("height: ") {
@@ -129,15 +136,15 @@ impl RunOutcome {
             }
         }
         loop {
-            match rest[1..].find("\nheight: ") {
-                Some(i) => {
-                    recs.push(rest[..i + 1].to_string());
-                    rest = &rest[i + 2..];
-                }
-                None => {
-                    recs.push(rest.to_string());
-                    break;
-                }
+            let (this, next) = match rest[1..].find("\nheight: ") {
+                Some(i) => (&rest[..i + 2], Some(&rest[i + 2..])),
+                None => (rest, None),
+            };
+            // strip exactly the println's own newline
+            recs.push(this.strip_suffix('\n').unwrap_or(this).to_string());
+            match next {
+                Some(n) => rest = n,
+                None => break,
             }
         }
         recs
